@@ -10,6 +10,10 @@ correspond  : U-pyformat     Model pyFormat (f/e/g/d, sign, zero fill) vs CPytho
               U-valueformat  Model ValueNode (construction, value / is_negative setters, format) vs the real
                              ValueNode, exact text, on generated (token x padding x value) and on live nodes of
                              parsed surfaces / cells / transforms after an API call
+              U-transform    Model/TransformWrite.lean (Transform._default_entry and the entry loops of
+                             Transform._update_values: which of the 12 numbers of a TR input stay a jump) vs the
+                             written card, on TR / *TR inputs read with jumps, after is_in_degrees /
+                             rotation_matrix / displacement_vector assignments in any order
 judge       : the written text of the REAL code: first word re-read by the Lean Spec and by an independent
               Python Fortran reader, compared with the value set (tolerance pinned to 1e-9); integers exact;
               unchanged values verbatim; no fusion with the following word.
@@ -69,6 +73,10 @@ THEOREMS = [
     "C05_unchanged",
     "C05_format_changed",
     "C05_separated",
+    "C05_transform_default_entry",
+    "C05_transform_entries",
+    "C05_transform_written",
+    "C05_transform_unit_switch",
 ]
 
 WORKERS = 8
@@ -338,6 +346,342 @@ def run_impl_api(case):
     out["word"] = words[idx] if idx < len(words) else None
     out["nwords"] = len(words)
     return out
+
+
+# --------------------------------------------------------------------------- TR inputs: jumps, unit, vectors
+# MCNP 6.2 manual 3.3.1.3: an entry of TRn that is jumped over takes the default, no displacement and no rotation,
+# spelled in the unit of the card (cosines for TR, degrees for *TR).  Written down here from the manual, not from the code.
+TR_DEFAULTS = {
+    False: (0, 0, 0, 1, 0, 0, 0, 1, 0, 0, 0, 1),
+    True: (0, 0, 0, 0, 90, 90, 90, 0, 90, 90, 90, 0),
+}
+TR_CARD_WORDS = ["0", "1", "90", "0.0", "1.0", "90.0", "0.5", "-1", "45", "30", "60", "2.5", "-0.5", "0.866", "89", "91", "180"]
+TR_VALUES = [0.0, 1.0, 90.0, -1.0, 0.5, -0.5, 45.0, 30.0, 60.0, 89.0, 91.0, 180.0, 2.5, 1e-3, 0.8660254037844387,
+             0.7071067811865476, -0.4999999999999998, 12.345678901234]
+
+
+def _tr_layout(deg, number, words):
+    """The card text: modifier, name, the words; a continuation line when the card gets long."""
+    head = ("*" if deg else "") + "tr" + str(number)
+    line, lines = head, []
+    for w in words:
+        if len(line) + 1 + len(w) > 70:
+            lines.append(line)
+            line = "     " + w
+        else:
+            line += " " + w
+    lines.append(line)
+    return "\n".join(lines)
+
+
+def gen_tr_case(rng, i):
+    """A TR / *TR input with jumps (single or nJ, anywhere among the up to 13 entries), then a history of
+    is_in_degrees / rotation_matrix / displacement_vector assignments and writes."""
+    deg0 = rng.random() < 0.5
+    n = [12, 3, 12, 8, 13, 9, 12, 13][i % 8]
+    pj = rng.choice([0.15, 0.4, 0.7, 1.0])
+    entries = []
+    for p in range(min(n, 12)):
+        if rng.random() < pj:
+            entries.append(None)
+        elif rng.random() < 0.5:
+            entries.append(rng.choice(["{}", "{}.0"] if p >= 3 else ["{}"]).format(TR_DEFAULTS[deg0][p]))
+        else:
+            entries.append(rng.choice(TR_CARD_WORDS))
+    if all(e is None for e in entries[:3]) and rng.random() < 0.7:
+        entries[rng.randrange(3)] = rng.choice(TR_CARD_WORDS)
+    words, run = [], 0
+    for e in entries + ["end"]:
+        if e is None:
+            run += 1
+            continue
+        while run:
+            k = run if rng.random() < 0.6 else rng.randint(1, run)
+            words.append("j" if k == 1 and rng.random() < 0.8 else f"{k}j")
+            run -= k
+        if e != "end":
+            words.append(e)
+    m13 = None
+    if n == 13:
+        m13 = rng.choice(["1", "-1", "j"])
+        words.append(m13)
+    card = _tr_layout(deg0, rng.choice([1, 2, 5, 17, 999]), words)
+    ops, deg = [], deg0
+    for rnd in range(2 if rng.random() < 0.15 else 1):
+        step = []
+        if rng.random() < 0.75:
+            step.append("deg")
+        if rng.random() < 0.7:
+            step.append("rot")
+        if rng.random() < 0.4:
+            step.append("disp")
+        if not step and rnd == 0:
+            step = ["deg", "rot"]
+        rng.shuffle(step)
+        for name in step:
+            if name == "deg":
+                new = (not deg) if rng.random() < 0.8 else deg
+                ops.append(["deg", new])
+            elif name == "rot":
+                # the unit the matrix is meant in: the one the transform has when it is written
+                final = deg
+                if "deg" in step[step.index(name):]:
+                    final = None  # decided by the later op: draw for either unit
+                ln = 9 if n == 13 else rng.choice([9, 9, 9, 5, 6])
+                vals = []
+                for k in range(ln):
+                    r = rng.random()
+                    u = final if final is not None else (rng.random() < 0.5)
+                    if r < 0.35:
+                        vals.append(float(TR_DEFAULTS[u][k + 3]))
+                    elif r < 0.65:
+                        vals.append(float(TR_DEFAULTS[not u][k + 3]))
+                    elif r < 0.9:
+                        vals.append(rng.choice(TR_VALUES))
+                    else:
+                        vals.append(round(rng.uniform(-1, 1) if not u else rng.uniform(0, 180), rng.choice([2, 6, 15])))
+                if not any(vals):  # MontePy takes an all-zero matrix for "no matrix"; it is no rotation either
+                    vals[0] = 1.0
+                ops.append(["rot", [nf.num(v) for v in vals]])
+            else:
+                ops.append(["disp", [nf.num(0.0 if rng.random() < 0.4 else rng.choice(TR_VALUES)) for _ in range(3)]])
+            if name == "deg":
+                deg = ops[-1][1]
+        ops.append(["format"])
+        if rng.random() < 0.1:
+            ops.append(["format"])
+    return {"unit": "transform", "card": card, "ops": ops}
+
+
+def _tr_state(obj):
+    """The live transform just before it is written, for the model (read-only observation of public properties
+    and of the values of the nodes of the card)."""
+    def w(v):
+        return None if v is None else nf.num(v if isinstance(v, int) and not isinstance(v, bool) else float(v))
+
+    return {
+        "unit": "transform",
+        "deg": bool(obj.is_in_degrees),
+        "m2a": bool(obj.is_main_to_aux),
+        "nodes": [w(node.value) for node in obj.data],
+        "disp": [w(v) for v in obj.displacement_vector],
+        "rot": [w(v) for v in obj.rotation_matrix],
+    }
+
+
+def read_tr_card(lines):
+    """What MCNP reads on the written lines: (in degrees, entries) with an entry a Fraction or None for a jump;
+    None when the text is not a TR card of numbers.  Independent of MontePy (vlib.shortcut_ref, MCNP manual 2.8.1)."""
+    from vlib import shortcut_ref
+
+    words = []
+    for line in lines:
+        for piece in line.split("\n"):
+            piece = piece.split("$")[0]
+            if piece[:5].strip().lower() == "c" and (len(piece.strip()) == 1 or piece.strip()[1:2] == " "):
+                continue
+            words += [x for x in piece.split() if x != "&"]
+    if not words or not re.fullmatch(r"\*?tr\d+", words[0].lower()):
+        return None
+    ent = shortcut_ref.expand(" ".join(words[1:]))
+    if ent is None:
+        return None
+    out = []
+    for v, _kind in ent:
+        if isinstance(v, tuple):
+            if v[0] != "lin":
+                return None
+            _, a, b, cnt, k = v
+            v = a + (b - a) * k / (cnt + 1)
+        out.append(v)
+    return words[0].startswith("*"), out
+
+
+def run_impl_tr(case):
+    """Parse the TR card, apply the history through the public setters, write with format_for_mcnp_input."""
+    mp = _mp()
+    import numpy as np
+
+    out = {"card": case["card"]}
+    with warnings.catch_warnings():
+        warnings.simplefilter("ignore")
+        try:
+            obj = mp.data_from(case["card"])
+        except Exception as e:  # noqa: BLE001 - a card MontePy does not read: counted, C12's business
+            return dict(out, skip="parse:" + type(e).__name__)
+        outs = []
+        for op in case["ops"]:
+            try:
+                if op[0] == "deg":
+                    obj.is_in_degrees = op[1]
+                elif op[0] == "rot":
+                    obj.rotation_matrix = np.array([float(nf.unnum(v)) for v in op[1]])
+                elif op[0] == "disp":
+                    obj.displacement_vector = np.array([float(nf.unnum(v)) for v in op[1]])
+                else:
+                    o = {}
+                    try:
+                        o["state"] = _tr_state(obj)
+                    except Exception:  # noqa: BLE001 - no model comparison for this write
+                        o["state"] = None
+                    try:
+                        o["lines"] = obj.format_for_mcnp_input((6, 2, 0))
+                    except Exception as e:  # noqa: BLE001 - a verdict of this case
+                        o["raised"] = type(e).__name__
+                        outs.append(o)
+                        break
+                    outs.append(o)
+            except (TypeError, ValueError) as e:
+                return dict(out, skip="setter:" + type(e).__name__)
+    out["outs"] = outs
+    return out
+
+
+def judge_tr(case, res):
+    """C05 on a TR input: every number of a vector assigned through the API is, at its position of the written card
+    and read the way MCNP reads that card (a jump = the default of the unit the card is written in), the number
+    that was assigned.  Returns (signature, what) of the first violation or None."""
+    if "skip" in res:
+        return None
+    base = {"mechanism": "transform-entry"}
+    set_vec = {"disp": None, "rot": None}
+    switched = False
+    k = -1
+    for op in case["ops"]:
+        if op[0] == "deg":
+            switched = True
+            continue
+        if op[0] in set_vec:
+            set_vec[op[0]] = [float(nf.unnum(v)) for v in op[1]]
+            continue
+        k += 1
+        if k >= len(res["outs"]):
+            break
+        o = res["outs"][k]
+        sig = dict(base, unit_assigned=switched)
+        if "raised" in o:
+            return dict(sig, **{"class": "raises", "site": "tr"}), f"writing {case['card']!r} raised {o['raised']}"
+        if set_vec["disp"] is None and set_vec["rot"] is None:
+            continue
+        rd = read_tr_card(o["lines"])
+        if rd is None:
+            return dict(sig, **{"class": "unreadable", "site": "tr"}), f"wrote {o['lines']!r}: not a TR input of numbers"
+        deg_w, ent = rd
+        for site, start in (("disp", 0), ("rot", 3)):
+            vec = set_vec[site]
+            if vec is None:
+                continue
+            for j, v in enumerate(vec):
+                p = start + j
+                sg = dict(sig, site="tr_" + ("displacement" if site == "disp" else "rotation"))
+                # an entry left off at the end of the card is for MCNP what a jump is: the default
+                y = ent[p] if p < len(ent) else None
+                as_jump = y is None
+                if as_jump:
+                    y = Fraction(TR_DEFAULTS[deg_w][p])
+                if not nf.close_pinned(y, v):
+                    cls = "jump-for-value" if as_jump else "precision-lost"
+                    return dict(sg, **{"class": cls}), (
+                        f"{'*TR' if deg_w else 'TR'} entry {p} set to {v!r} is written "
+                        f"{('as a jump' if p < len(ent) else 'by leaving the entry off') + ', which MCNP reads as ' + str(y) if as_jump else 'as ' + str(to_float_str(y))} "
+                        f"(card {case['card']!r} written {o['lines']!r})")
+    return None
+
+
+def to_float_str(y):
+    return repr(nf.to_float(y))
+
+
+def tr_compare_model(o, m):
+    """U-transform: the jump pattern and the numbers of the written card against the model's entries.
+    Returns None when they agree, else a short description."""
+    rd = read_tr_card(o["lines"])
+    if rd is None:
+        return "written card unreadable"
+    deg_w, ent = rd
+    if deg_w != o["state"]["deg"]:
+        return "modifier"
+    want = [nf.unrat(e) for e in m["entries"]]
+    # jumps at the end of the card are left off by ListNode.update_with_new_values (C08's model): the same for MCNP
+    got = ent[: len(want)] + [None] * (len(want) - len(ent))
+    for p, (a, b) in enumerate(zip(got, want)):
+        if (a is None) != (b is None):
+            return f"entry {p}: written {'jump' if a is None else 'number'}, model {'jump' if b is None else 'number'}"
+        if a is not None and not nf.close_pinned(a, nf.to_float(b)):
+            return f"entry {p}: written {nf.to_float(a)!r}, model {nf.to_float(b)!r}"
+    return None
+
+
+def shrink_tr_case(case, still_fails):
+    cur = case
+
+    def attempt(c):
+        nonlocal cur
+        if canon(c) != canon(cur) and still_fails(c):
+            cur = c
+            return True
+        return False
+
+    # fewer operations (the last write stays)
+    progress = True
+    while progress:
+        progress = False
+        for j in range(len(cur["ops"]) - 1):
+            if attempt(dict(cur, ops=cur["ops"][:j] + cur["ops"][j + 1:])):
+                progress = True
+                break
+    # a plainer card: one line, single jumps, entries at the default of the card's unit
+    first = cur["card"].split()[0]
+    deg0 = first.startswith("*")
+    flat = []
+    for w in cur["card"].split()[1:]:
+        mt = re.fullmatch(r"(\d*)j", w.lower())
+        flat += ["j"] * int(mt.group(1) or 1) if mt else [w]
+    attempt(dict(cur, card=" ".join([first] + flat)))
+    attempt(dict(cur, card=" ".join([re.sub(r"\d+", "1", first)] + cur["card"].split()[1:])))
+    words = cur["card"].split()
+    if all(not re.fullmatch(r"\d+j", w.lower()) for w in words[1:]):
+        while len(words) > 4 and attempt(dict(cur, card=" ".join(words[:-1]))):  # fewer entries
+            words = cur["card"].split()
+        for j in range(1, min(len(words), 13)):  # the other entries at the default of the card's unit
+            if words[j].lower() != "j" and words[j] != str(TR_DEFAULTS[deg0][j - 1]):
+                w2 = list(words)
+                w2[j] = str(TR_DEFAULTS[deg0][j - 1])
+                if attempt(dict(cur, card=" ".join(w2))):
+                    words = w2
+    # plainer values: the default of the unit at write time does not matter here, try 0 / 1 / 90
+    for j, op in enumerate(cur["ops"]):
+        if op[0] in ("rot", "disp"):
+            for q in range(len(op[1])):
+                for simple in (0.0, 1.0, 90.0):
+                    if nf.unnum(cur["ops"][j][1][q]) in (0.0, 1.0, 90.0):
+                        break
+                    vec = list(cur["ops"][j][1])
+                    vec[q] = nf.num(simple)
+                    ops2 = list(cur["ops"])
+                    ops2[j] = [op[0], vec]
+                    if attempt(dict(cur, ops=ops2)):
+                        break
+    return cur
+
+
+# minimised histories of past failures on TR inputs (run first, independent of the seed)
+TR_CORPUS = [
+    # seeded/C05e: the jump test used the defaults of the unit the card was READ in
+    {"unit": "transform", "card": "*tr1 1 2 3 j 90 90 90 j 90 90 90 j",
+     "ops": [["deg", False], ["rot", [nf.num(v) for v in (0.0, 1.0, 0.0, -1.0, 0.0, 0.0, 0.0, 0.0, 1.0)]], ["format"]]},
+    {"unit": "transform", "card": "tr2 4 5 6 j 0 0 0 j 0 0 0 j",
+     "ops": [["rot", [nf.num(v) for v in (1.0, 91.0, 90.0, 89.0, 1.0, 90.0, 90.0, 90.0, 0.0)]], ["deg", True], ["format"], ["format"]]},
+    {"unit": "transform", "card": "tr5 1 2j 9j", "ops": [["deg", True], ["format"]]},
+    {"unit": "transform", "card": "*tr5 j 2 j 3j 45 5j -1",
+     "ops": [["disp", [nf.num(v) for v in (0.0, 0.0, 2.5)]], ["rot", [nf.num(v) for v in (0.0, 90.0, 90.0, 90.0, 45.0, 45.0, 90.0, 135.0, 45.0)]], ["format"]]},
+    # fixed eb991ca: a write drops the jumps at the end of the input; the displacement entries that were left off
+    # have to come back when they, or a rotation behind them, are needed
+    {"unit": "transform", "card": "*tr1 8j",
+     "ops": [["disp", [nf.num(v) for v in (1.0, 0.0, 0.0)]], ["format"], ["deg", True], ["format"]]},
+    {"unit": "transform", "card": "tr1 0 2j",
+     "ops": [["disp", [nf.num(v) for v in (0.0, 1.0, 0.0)]], ["format"], ["disp", [nf.num(v) for v in (0.0, 0.0, 5.0)]], ["format"], ["format"]]},
+]
 
 
 # --------------------------------------------------------------------------- oracle (the property itself)
@@ -670,13 +1014,13 @@ def load_corpus():
 
     from vlib.core import VERIF
 
-    nodes, api = [], []
+    nodes, api, tr = [], [], []
     for path in sorted(glob.glob(os.path.join(VERIF, "corpus", "C05", "*.json"))):
         with open(path) as fh:
             c = json.load(fh).get("case", {})
         c = c.get("case", c)
-        (api if c.get("unit") == "api" else nodes).append(c)
-    return nodes, api
+        (api if c.get("unit") == "api" else tr if c.get("unit") == "transform" else nodes).append(c)
+    return nodes, api, tr
 
 
 # --------------------------------------------------------------------------- model side
@@ -876,6 +1220,23 @@ def _check_node_slice(chk, drv, cases):
 
 
 
+def _tr_disagreement(drv, case):
+    """First difference between the written card and the model over the writes of one transform history, or None."""
+    res = run_impl_tr(case)
+    if "skip" in res or judge_tr(case, res) is not None:
+        return None
+    for o in res.get("outs", []):
+        if o.get("state") is None or "lines" not in o:
+            return None
+        m = drv.batch([o["state"]])[0]
+        if "error" in m:
+            return None
+        d = tr_compare_model(o, m)
+        if d is not None:
+            return d
+    return None
+
+
 def _impl_node_and_judge(case):
     res = run_impl_node(case)
     return res, judge_node(case, res)
@@ -886,7 +1247,9 @@ def run(chk):
         "a case is one ValueNode built from a token spelling (Real rule of DESIGN 5.2 with signs, leading zeros, "
         "e/E/letter-less exponents; None; Jump; float objects; int tokens) with a padding, followed by value / "
         "is_negative assignments and format() calls; API cases parse a real surface/cell/transform/material card, "
-        "assign through the public setter and write the card. Values: integers, halves, 1-17 digit decimals over "
+        "assign through the public setter and write the card; transform cases parse a TR / *TR input with jumps (j, nJ) "
+        "anywhere among its up to 13 entries, assign is_in_degrees / rotation_matrix / displacement_vector in any order "
+        "(values drawn from the defaults of either unit, a pool and random numbers), and write once or twice. Values: integers, halves, 1-17 digit decimals over "
         "1e-300..1e300, ties +- ulps, near-integers, near the old value, +-0.0, random doubles. A case is non-trivial "
         "when a changed value has to be written (not the unchanged-token shortcut); distinct = distinct canonical JSON."
     )
@@ -895,6 +1258,9 @@ def run(chk):
         "only when a relative error is within 1e-6 (relative) of the 1e-9 threshold; such cases are counted (band:*) and not compared",
         "inf/nan values, str/enum typed nodes, int objects as tokens of float nodes and underscores in numbers are not modelled",
         "the oracle pins the tolerance to the property's 1e-9 (not to constants.rel_tol)",
+        "an entry of a TR input that is jumped over, or left off at the end, is read as the entry of 'no transformation' in the unit of "
+        "the card (cosines 1 0 0 0 1 0 0 0 1, degrees 0 90 90 90 0 90 90 90 0; the reading the repair 488762e adopted); MCNP's completion of a "
+        "partially given rotation matrix is not modelled; only vectors assigned through the API are judged",
     ]
     chk.trusted_base = [
         "Lean 4.33.0 kernel",
@@ -902,6 +1268,9 @@ def run(chk):
         "the independent Python reader tools/vlib/numfmt.py:read_fortran",
         "hand-written model lean/MontePyVerif/Model/ValueFormat.lean, tied to the code by the correspondences of this run "
         "(U-pyformat validates the exact-rational model of CPython's format against CPython itself)",
+        "Spec lean/MontePyVerif/Spec/Transform.lean (defaults of a jumped-over TR entry; written down a second time, from the manual, as "
+        "TR_DEFAULTS of tools/props/c05.py for the oracle) and hand-written model lean/MontePyVerif/Model/TransformWrite.lean, tied to "
+        "Transform._update_values by U-transform; vlib/shortcut_ref.py as the reader of the written TR card",
         "translator plug-in tools/extractors/valueformat.py (Gen/ValueFormat.lean) and tools/extract.py (Gen/Constants.lean)",
         "harness tools/props/c05.py (calls the real ValueNode, the real parsers and setters in-process)",
     ]
@@ -1006,7 +1375,7 @@ def run(chk):
 
     # ------------------------------------------------------------------ U-valueformat + oracle
     rng = chk.rng("nodes")
-    file_nodes, file_api = load_corpus()
+    file_nodes, file_api, file_tr = load_corpus()
     corpus_cases = file_nodes + list(NODE_CORPUS)
     ncorpus = len(corpus_cases)
     nrandom = chk.pick(20000, 2000000)
@@ -1082,6 +1451,80 @@ def run(chk):
                     case,
                 )
     chk.units["U-api"] = {"corpus": len(API_CORPUS) + len(file_api), "random": len(api) - len(API_CORPUS) - len(file_api), "live_nodes_compared": len(states)}
+
+    # ------------------------------------------------------------------ TR inputs read with jumps: unit and vectors set through the API
+    rng = chk.rng("transform")
+    tr = file_tr + list(TR_CORPUS) + [gen_tr_case(rng, i) for i in range(chk.pick(4000, 80000))]
+    tr_res = pmap(run_impl_tr, tr, workers=WORKERS, chunksize=100)
+    tstates, twhere = [], []
+    for i, r in enumerate(tr_res):
+        for k, o in enumerate(r.get("outs", [])):
+            if o.get("state") is not None and "lines" in o:
+                tstates.append(o["state"])
+                twhere.append((i, k))
+    tr_model = batch_par(drv, tstates)
+    model_by = dict(zip(twhere, tr_model or []))
+    shrunk = {}
+    for i, (case, res) in enumerate(zip(tr, tr_res)):
+        assigned = any(op[0] in ("rot", "disp") for op in case["ops"])
+        chk.note_case(case, "skip" not in res and assigned, sample_every=10000)
+        chk.count("transform:" + ("skipped:" + res["skip"] if "skip" in res else "vector-assigned" if assigned else "unit-only"))
+        if "skip" not in res and any(op[0] == "deg" for op in case["ops"]):
+            chk.count("transform:unit-assigned")
+        v = judge_tr(case, res)
+        if v is not None:
+            r2 = run_impl_tr(case)
+            v2 = judge_tr(case, r2)
+            if v2 is None or v2[0] != v[0]:
+                chk.count("flaky:judge-transform")
+                continue
+            key = canon(v[0])
+            shrunk[key] = shrunk.get(key, 0) + 1
+            mc, rr, what = case, r2, v2[1]
+            if shrunk[key] <= 4:
+
+                def tr_fails(c2, sig=v[0]):
+                    vv = judge_tr(c2, run_impl_tr(c2))
+                    return vv is not None and vv[0] == sig
+
+                mc = shrink_tr_case(case, tr_fails)
+                rr = run_impl_tr(mc)
+                what = judge_tr(mc, rr)[1]
+            chk.violation(v[0], what, {"case": mc, "impl": rr})
+            continue  # the state of this case is not compared any further
+        for k, o in enumerate(res.get("outs", [])):
+            m = model_by.get((i, k))
+            if m is None:
+                continue
+            chk.traces_validated += 1
+            if "error" in m or m.get("read") != m.get("held"):
+                chk.broken_obligation("correspondence", "C05_transform_written evaluated on the executable model", {"model": m}, o["state"])
+                break
+            d = tr_compare_model(o, m)
+            if d is None:
+                continue
+            if chk.disagreements_checked >= MAX_CONFIRM:
+                chk.count("disagreement-not-rechecked:transform")
+                break
+            r2 = run_impl_tr(case)
+            o2 = r2.get("outs", [])[k] if k < len(r2.get("outs", [])) else None
+            if o2 is None or o2.get("state") is None or "lines" not in o2 or tr_compare_model(o2, drv.batch([o2["state"]])[0]) != d:
+                chk.count("flaky:transform")
+                break
+            chk.disagreements_checked += 1
+
+            def tr_differs(c2):
+                return _tr_disagreement(drv, c2) is not None
+
+            mc = shrink_tr_case(case, tr_differs) if len(chk.broken) < 3 else case
+            chk.broken_obligation(
+                "correspondence",
+                "U-transform (Model/TransformWrite.lean vs Transform._update_values: which entries of a TR input stay a jump)",
+                {"difference": _tr_disagreement(drv, mc) or d, "impl": run_impl_tr(mc).get("outs")},
+                mc,
+            )
+            break
+    chk.units["U-transform"] = {"corpus": len(TR_CORPUS) + len(file_tr), "random": len(tr) - len(TR_CORPUS) - len(file_tr), "writes_compared": len(tstates)}
     if chk.thorough and not chk.broken:
         leanio.leanchecker(chk, ["MontePyVerif.Props.C05"])
 
@@ -1101,6 +1544,15 @@ def replay(chk, payload):
         v = judge_api(case, res)
         if v is not None:
             chk.violation(v[0], v[1], {"case": case, "impl": res})
+    elif unit == "transform":
+        res = run_impl_tr(case)
+        v = judge_tr(case, res)
+        if v is not None:
+            chk.violation(v[0], v[1], {"case": case, "impl": res})
+        elif drv.ok:
+            d = _tr_disagreement(drv, case)
+            if d is not None:
+                chk.broken_obligation("correspondence", "U-transform", {"difference": d, "impl": res.get("outs")}, case)
     elif unit == "pyformat":
         ti = run_impl_pyformat(case)
         rm = drv.batch([case])[0] if drv.ok else None
